@@ -81,18 +81,24 @@ func (c *CmdShell) Output() io.ReadCloser { return c.outr }
 // Go runs c's [exec.Cmd].  ctx is not used; use [exec.CommandContext] or cause
 // an EOF on the [io.Reader] set via c.SetInPipe to stop Go.
 func (c *CmdShell) Go(ctx context.Context) error {
-	/* Start proxying output. */
+	/* Start the process going. */
+	if err := c.cmd.Start(); nil != err {
+		c.outw.CloseWithError(err)
+		return err
+	}
+
+	/* Proxy output until both streams are finished.  The process must not
+	be waited for before then; Wait closes the pipes we're reading. */
 	var peg errgroup.Group
 	peg.Go(func() error { _, err := io.Copy(c.outw, c.sout); return err })
 	peg.Go(func() error { _, err := io.Copy(c.outw, c.serr); return err })
+	perr := peg.Wait()
 
-	/* Start the process going. */
-	var eg errgroup.Group
-	eg.Go(func() error { return c.cmd.Run() })
-	eg.Go(func() error { return c.outw.CloseWithError(peg.Wait()) })
+	/* Wait for the process itself and note we've no more output. */
+	err := c.cmd.Wait()
+	c.outw.CloseWithError(perr)
 
-	/* Wait until everything finishes. */
-	return eg.Wait()
+	return err
 }
 
 // String calls c's [exec.Cmd.String].
